@@ -413,7 +413,7 @@ class P:
             self.err("pattern")
         # identifier / path
         segs = self.path_segments()
-        if by_ref or mutable or (len(segs) == 1 and segs[0][0].islower() and not self.at_op("(") and not self.at_op("{")):
+        if by_ref or mutable or (len(segs) == 1 and (segs[0][0].islower() or segs[0][0] == "_") and not self.at_op("(") and not self.at_op("{")):
             sub = None
             if self.eat_op("@"):
                 sub = self.pattern1()
